@@ -42,6 +42,12 @@ def main(tier, replay):
                 continue
             if i % 3 == 1:
                 tank_pump(rnd, s)
+            if i % 9 == 5:
+                # a throttle valve whose status is OPEN (not Active) directly at a tank
+                tk = rnd.choice([nd for nd in s["nodes"] if nd["type"] == "T"])
+                jn = rnd.choice([nd["name"] for nd in s["nodes"] if nd["type"] == "J"])
+                s["links"].append({"name": "V%d" % len(s["links"]), "type": "TCV", "a": jn, "b": tk["name"], "diam": 0.3, "minor": 0.0,
+                                   "setting": netgen.rgrid(rnd, 5, 50, 5), "init": 1})
             if i % 7 == 3:
                 # a leak at the bottom of a tank (it keeps draining the tank when the links are shut at the minimum level)
                 tk = rnd.choice([nd for nd in s["nodes"] if nd["type"] == "T"])
